@@ -25,6 +25,7 @@ import (
 	"google.golang.org/protobuf/proto"
 	"google.golang.org/protobuf/reflect/protoreflect"
 	"google.golang.org/protobuf/types/dynamicpb"
+	"google.golang.org/protobuf/types/known/wrapperspb"
 
 	"github.com/yorkie-team/yorkie/api/converter"
 	"github.com/yorkie-team/yorkie/api/types"
@@ -367,6 +368,11 @@ func newAccessWorld(noDefault bool) *accessWorld {
 		ad := w.adminWith(map[string]string{types.AuthorizationKey: "Bearer " + p.Token})
 		res := must(ad.CreateProject(ctx, connect.NewRequest(&api.CreateProjectRequest{Name: "proj-" + p.User})))
 		p.Project = res.Msg.Project
+		// channel sessions of a project expire after its own TTL (default 15 s): keep the
+		// victim's (and the attacker's) sessions alive for the whole run (5m is the largest value the server accepts)
+		up := must(ad.UpdateProject(ctx, connect.NewRequest(&api.UpdateProjectRequest{Id: p.Project.Id,
+			Fields: &api.UpdatableProjectFields{ChannelSessionTtl: wrapperspb.String("5m")}})))
+		p.Project = up.Msg.Project
 	}
 	w.provision(w.b, marker+"-content", marker+"-rev", marker+"-client", true)
 	// a schema in each project, one only in B
